@@ -1,5 +1,6 @@
 import LyModel.Base
 import LyModel.Ctx.Jenkins
+import LyModel.Generated.CtxFacts
 /-!
 # Component `Ctx` — the module set of a libyang context as a state machine
 
@@ -834,16 +835,22 @@ def hashFeats (m : Mod) (fi : Nat) : List Feat × Nat :=
   if fi = 0 then (m.allFeats, n + 1)
   else ((m.subFeats.drop (fi - 1)).flatten, max fi (n + 1))
 
-/-- the byte strings fed to `lyht_hash_multi`, in order (the iterator index `fi` is NOT reset per module: F23) -/
-def hashParts : List Mod → Nat → List Bytes
+/-- the byte strings fed to `lyht_hash_multi`, in order.  `reset`: is the iterator index `fi` set back to 0 for every
+    module?  In the pinned tree it is not (F23): it is carried across modules. -/
+def hashPartsG (reset : Bool) : List Mod → Nat → List Bytes
   | [], _ => []
   | m :: r, fi =>
-    let (fs, fi') := hashFeats m fi
+    let (fs, fi') := hashFeats m (if reset then 0 else fi)
     [m.src.name] ++ (if m.src.rev.isEmpty then [] else [m.src.rev]) ++ (fs.filter (·.on)).map (·.name)
-      ++ [[if m.implemented then 1 else 0]] ++ hashParts r fi'
+      ++ [[if m.implemented then 1 else 0]] ++ hashPartsG reset r fi'
 
-def Ctx.modulesHash (s : Ctx) : BitVec 32 :=
-  Jenkins.multi ((hashParts s.mods 0).foldl Jenkins.multi 0) []
+/-- as the code does it now (`hashFiReset` is read from context.c on every run) -/
+def hashParts (l : List Mod) (fi : Nat) : List Bytes := hashPartsG Generated.CtxFacts.hashFiReset l fi
+
+def Ctx.modulesHashG (reset : Bool) (s : Ctx) : BitVec 32 :=
+  Jenkins.multi ((hashPartsG reset s.mods 0).foldl Jenkins.multi 0) []
+
+def Ctx.modulesHash (s : Ctx) : BitVec 32 := s.modulesHashG Generated.CtxFacts.hashFiReset
 
 /-- what the specification of the hash asks for: the iterator restarts for every module -/
 def hashPartsSpec : List Mod → List Bytes
